@@ -87,7 +87,7 @@ def run_product(ctx):
     return out
 
 
-def apply(ctx, res, rule_prefixes, strict_only=True, lenient_only=False, pid=None, relative=False):
+def apply(ctx, res, rule_prefixes, strict_only=True, lenient_only=False, pid=None, relative=False, key_filter=None, rename=None):
     """Copy the product findings whose rule starts with one of the prefixes into the result.
     relative=True (C12): a lenient valuation is judged against the strict one — a deviation from the reference that the
     strict parser shows in exactly the same way is not a defect of the *extension* (it belongs to C01/C02/C05/C07);
@@ -116,12 +116,17 @@ def apply(ctx, res, rule_prefixes, strict_only=True, lenient_only=False, pid=Non
         n = 0
         for f in run["findings"]:
             if any(f["rule"].startswith(p) for p in rule_prefixes):
+                if key_filter is not None and not f["rule"].startswith("E2.") and not key_filter(f["key"]):
+                    continue
                 if relative and (f["rule"], f["key"]) in strict_keys:
                     res.infos.append("[%s] deviation shared with the strict parser, not attributed to C12: %s/%s" % (tag, f["rule"], f["key"]))
                     continue
                 n += 1
                 key = "%s/%s" % (f["rule"], f["key"]) if strict else "%s/%s/%s" % (f["rule"], tag, f["key"])
-                res.violation(f["rule"] if strict or not lenient_only else "C12." + f["rule"], key, "[%s] %s" % (tag, f["msg"]), f["site"], f["witness"])
+                rname = f["rule"] if strict or not lenient_only else "C12." + f["rule"]
+                if rename and not f["rule"].startswith("E2."):
+                    rname = rename
+                res.violation(rname, key, "[%s] %s" % (tag, f["msg"]), f["site"], f["witness"])
         # one obligation per explored transition of the product
         res.obligations += run["transitions"]
         res.discharged += run["transitions"]
